@@ -1,6 +1,6 @@
 (* Property C10 — output_mode only filters presentation. *)
 From Coq Require Import String Ascii List ZArith NArith Bool.
-From SDP Require Import Base PyStr Actions Output OutputProofs Documented FieldsFacts.
+From SDP Require Import Base PyStr Lexer Actions Parse Engine Seq Entity Output OutputProofs Documented FieldsFacts Table TableProofs TableOutProofs TableModesProofs.
 From SDP.Gen Require Fields Tokens.
 Import ListNotations.
 Open Scope string_scope.
@@ -42,3 +42,25 @@ Proof.
   right. apply String.eqb_eq. exact E.
 Qed.
 Print Assumptions C10_bigquery_ref_hook_idempotent.
+
+(* ---------- the common view, proved: from the lexemes of the statement to what EVERY output mode reports -----------------------
+   For every CREATE TABLE of the core fragment (any number of columns and inline options, Props/C01.v) and every supported mode:
+   no error, one table entity, and its common view — table_name, primary_key, the columns restricted to the eight column keys,
+   alter, checks, index, partitioned_by, tablespace, and the schema under the mode's key (dataset for bigquery) — is exactly
+   the one of mode sql ([final_table]).  oracle and redshift add one key (encrypt / encode) to every column and nothing else.
+   [modes_covered] is checked against the regenerated list of modes: a new mode breaks this proof until it is classified. *)
+Theorem C10_common_view_table_fragment : forall t norm silent m, Table.wf norm t = true -> In m Tokens.modes ->
+  nms norm (t_name t) <> "" -> match t_schema t with Some s => nms norm s <> "" | None => True end ->
+  parse_lexemes norm silent (Table.lexemes t) = Ok (Some (Table.denote norm t)) /\
+  exists tm, Output.format m false [Table.denote norm t] = Ok (PList [PDict tm]) /\
+             common_view tm = common_view (final_table (onm norm (t_schema t)) (PStr (nms norm (t_name t))) (cds norm t)) /\
+             get_or_none tm (schema_key m) = onm norm (t_schema t).
+Proof. exact table_every_mode. Qed.
+Print Assumptions C10_common_view_table_fragment.
+
+Theorem C10_common_view_any_columns : forall m sch n (l : list cd), In m Tokens.modes ->
+  (sch = PNone \/ exists c s, sch = PStr (String c s)) -> n <> "" ->
+  exists t, Output.format m false [PDict (tdict sch (PStr n) (map cd_dict l))] = Ok (PList [PDict t]) /\
+            common_view t = common_view (final_table sch (PStr n) l) /\ get_or_none t (schema_key m) = sch.
+Proof. exact common_view_every_mode. Qed.
+Print Assumptions C10_common_view_any_columns.
